@@ -312,12 +312,10 @@ Theorem C02_fmt_case_insensitive : forall s1 s2, lower s1 = lower s2 -> fmt_key 
 Proof. exact fmt_key_same_lower. Qed.
 Print Assumptions C02_fmt_case_insensitive.
 
-(* over the regenerated registry: gff, tsv, csv are found by name and by their own extension, fmt wins over the extension, and an
-   extension in another spelling is not recognised (OSError: format cannot be detected) *)
+(* over the regenerated registry: gff, tsv, csv are found by name and by their own extension; fmt wins over the extension *)
 Theorem C02_dispatch_names : forall f,
   fmt_key (fmt_name f) = Some f /\ resolve_w None (fmt_name f) = inl f /\
-  (forall e, resolve_w (Some (fmt_name f)) e = inl f) /\
-  resolve_w None (map (fun c => match c with "g" => "G" | "t" => "T" | "c" => "C" | _ => c end%byte) (fmt_name f)) = inr (bs "OSError"%bs).
+  (forall e, resolve_w (Some (fmt_name f)) e = inl f).
 Proof. exact dispatch_names. Qed.
 Print Assumptions C02_dispatch_names.
 
